@@ -1,0 +1,16 @@
+//go:build verif
+// +build verif
+
+package limiter
+
+// VerifYieldHook is used by the verification harness in /verif (build tag "verif") to
+// force schedules: when it is non-nil it is called at the named yield points of this
+// package. It must be set before the goroutines that use a limiter are started. With the
+// tag off (verif_off.go) the yield points compile to nothing.
+var VerifYieldHook func(point string)
+
+func verifYield(point string) {
+	if h := VerifYieldHook; h != nil {
+		h(point)
+	}
+}
